@@ -89,9 +89,9 @@ impl Check for Spending {
     }
     fn runs(&self, tier: Tier) -> u64 {
         if tier == Tier::Quick {
-            500
+            8000
         } else {
-            40_000
+            200000
         }
     }
     fn components(&self) -> serde_json::Value {
